@@ -5,3 +5,4 @@
 
 pub mod dim;
 pub mod prefix;
+pub mod vm;
